@@ -8,4 +8,5 @@ def main : IO UInt32 :=
     | "c13" => C13.check params lines
     | "c13e" => C13.checkEngine params lines
     | "c13e2" => C13.checkEngine2 params lines
+    | "c13many" => C13.checkMany params lines
     | _ => { bad := [s!"unknown family {family}"] })
